@@ -12,6 +12,34 @@ def run(rep, tier, seed, replay_file=None):
         "a goroutine snapshot with no running/runnable goroutine is a fixed point (rt.Quiesce, DESIGN 3.3)",
         "exhaustive claims hold for the constants of the cfg files only",
     ]
+    if replay_file:
+        import json
+        obj = json.load(open(replay_file))["replay"]
+        binary = harness.build("vh-waitgroup")
+        if "storm" in obj:
+            r, k, p = obj["storm"]
+            for attempt in range(3):        # the storm samples a race: three attempts
+                rc, outs, err = harness.run(binary, ["storm", str(r), str(k), str(p)], None, 900)
+                o = next((x for x in outs if "storm" in x), None)
+                if o and o.get("stuck", 0) > 0:
+                    rep.violation("waitgroup/wait-stuck", "storm %s: %d Wait call(s) blocked at quiescence with counter 0" % ((r, k, p), o["stuck"]), obj)
+                    break
+            rep.add_cases([dict(storm=r, k=k, procs=p)])
+        else:
+            beh = obj.get("behaviour", obj.get("beh"))
+            if isinstance(beh, dict):
+                beh = beh.get("beh", beh)
+            rc, outs, err = harness.run(binary, ["replay"], [dict(n=0, beh=beh)], timeout=120)
+            res = [o for o in outs if o.get("n") == 0 and "begin" not in o]
+            if res and not res[0].get("ok"):
+                rep.violation(res[0].get("key", "waitgroup/replay"), res[0].get("what", ""), obj)
+            elif not res:
+                rep.infra_error("replay produced no result: " + err[-400:])
+            rep.add_cases([beh])
+        rep.cov["states"] = rep.cov["transitions"] = 1   # no model checking in a replay run
+        rep.sample(dict(kind="saved case re-run", file=replay_file))
+        rep.cov["rule"] = "re-run of one saved case"
+        return
     # unbounded part (runs beside everything else): Apalache + TLAPS prove the safety invariants of WaitGroup.tla
     # (counter >= 0, counter = sum of completed Adds, mutex exclusion, NoEarlyReturn) for any number of waiters
     import threading
@@ -77,9 +105,37 @@ def _run(rep, tier, seed, quick):
     res = [o for o in outs if o.get("n") == 0 and "begin" not in o]
     rep.self_test("replayer rejects a wrong expectation", bool(res) and not res[0].get("ok"), str(res)[:200])
 
+    # 2b. storm: the state invariant of WaitGroupStep (Inv: counter = 0 => blocked = {}) judged at one quiescent point
+    # after thousands of unsynchronised rounds (k waiters and the last Done released from a barrier): the Done lands
+    # at every point of the waiters' entry sequence, including windows no yield point marks
+    import concurrent.futures as cf
+    plans = [(4000 if quick else 40000, k, p) for (k, p) in ((2, 4), (4, 2), (8, 4), (16, 8))]
+    with cf.ThreadPoolExecutor(max_workers=4) as ex:
+        futs = [ex.submit(harness.run, binary, ["storm", str(r), str(k), str(p)], None, 900) for (r, k, p) in plans]
+        storm_cases = []
+        for (r, k, p), f in zip(plans, futs):
+            rc, outs, err = f.result()
+            o = next((x for x in outs if "storm" in x), None)
+            if o is None:
+                if harness.crash_origin(err) == "library":
+                    rep.violation("waitgroup/storm/process-crash", err[-1500:], dict(storm=[r, k, p], stderr=err[-3000:]))
+                else:
+                    rep.infra_error("storm %s produced no result: %s" % ((r, k, p), err[-400:]))
+            elif o.get("inconclusive"):
+                rep.cov["inconclusive"] = rep.cov.get("inconclusive", 0) + 1
+            elif o.get("stuck", 0) > 0:
+                rep.violation("waitgroup/wait-stuck", "storm of %d rounds (k=%d waiters + the last Done from a barrier, GOMAXPROCS %d): "
+                              "%d Wait call(s) still blocked at quiescence although their counter is 0 and their context is live "
+                              "(first in round %d)" % (r, k, p, o["stuck"], o["first"]), dict(storm=[r, k, p], result=o))
+            else:
+                storm_cases.append(dict(storm=r, k=k, procs=p))
+        rep.add_cases(storm_cases)
+        rep.cov["storm_rounds"] = sum(c["storm"] for c in storm_cases)
+
     # 3. code -> model: concurrent histories validated by TLC against the abstract spec
     from props import c14_trace
     c14_trace.validate(rep, binary, tier, seed)
     rep.cov["rule"] = ("behaviours = driver schedules of WaitGroupStep (edge cover + random; thorough: all of length 4) "
                        "replayed step by step with observation at quiescence; non-trivial = at least one Wait call is "
-                       "blocked at some step; histories = random concurrent runs validated by WaitGroupTrace")
+                       "blocked at some step; storms = rounds of k waiters + the last Done released from a barrier, judged at one final "
+                       "quiescent point (counter 0 => nobody blocked); histories = random concurrent runs validated by WaitGroupTrace")
